@@ -601,6 +601,35 @@ theorem C13_fixed_kernel {σ ι : Type} (body : ι → Int → Nat → σ → Op
   obtain ⟨a', h1, h2, _⟩ := Ad.run_late body acc hs a ⟨hw, hT⟩
   exact ⟨a', h1, h2⟩
 
+/-- A reset of the adaptation (`Chain.reset_proposals()`, `reset_after_swap`) restarts the window at
+    the current proposal step: the adapted quantities are the initial ones again, the iteration
+    counter is untouched, `start_step = max(nsteps, 1)`, and the next update sees `dk = 1` (`dk = 0`
+    if no proposal step was made yet) — durations, and the Sivia–Skilling count
+    `n_iter = dk + 1`, are measured from the reset.  All the theorems above hold from the reset
+    state on (they are stated for arbitrary clock states). -/
+theorem C13_reset_restarts_window {σ : Type} (init : σ) (a : Ad σ) (h : a.clock.cfg.adaptive = true) :
+    (a.reset init).num = init ∧ (a.reset init).clock.raw = a.clock.raw ∧
+    (a.reset init).clock.cfg = a.clock.cfg ∧
+    (a.reset init).clock.startStep = max a.clock.nsteps 1 ∧
+    (a.reset init).clock.dkUpdate = (if 1 ≤ a.clock.nsteps then 1 else 0) := by
+  have hr : a.clock.reset = { a.clock with startStep := max a.clock.nsteps 1, events := [] } := by
+    unfold PropSt.reset; simp [h]
+  refine ⟨rfl, ?_, ?_, ?_, ?_⟩
+  · show a.clock.reset.raw = _; rw [hr]
+  · show a.clock.reset.cfg = _; rw [hr]
+  · show a.clock.reset.startStep = _; rw [hr]
+  · show a.clock.reset.dkUpdate = _
+    rw [hr]
+    unfold PropSt.dkUpdate
+    have hn : ({ a.clock with startStep := max a.clock.nsteps 1, events := [] } : PropSt).nsteps
+        = a.clock.nsteps := rfl
+    rw [hn]
+    simp only
+    generalize a.clock.nsteps = N
+    split_ifs with h1
+    · rw [max_eq_left h1]; omega
+    · rw [max_eq_right (by omega)]; omega
+
 /-- The update reads its own chain's record only: in a sampler (each chain owns its
     proposal objects) the outcome of chain `j` does not depend on the other chains'
     histories. -/
